@@ -83,3 +83,10 @@ check(
     "Hypothesis property-based testing; differential batch vs. sequential histories with tree snapshots",
     "DESIGN.md §3 C09",
 )
+check(
+    "C10", "fault_enumeration",
+    "Fault injection with a differential oracle: generated projects (3-6 trigger files, 1-3 codemods, detector-less / real-semgrep / SAST pipelines) x fault kind (invalid UTF-8, NUL, syntax error, empty file, file vanishing between listing and reading, parser raising for the victim, transformer raising at the j-th visited node) x victim position x worker count. The run with the fault is compared with the fault-free run of the same project: every other file must end with the same bytes and changesets; the victim is unchanged, has no changeset from a codemod that failed on it, is listed as failed by the codemods that selected it, its SAST findings are reported unfixed; exit 0; report schema-valid. The thorough tier enumerates every visited-node index j of the victim exhaustively for sampled plans.",
+    "Trusted: seams at libcst.parse_module / MatcherDecoratableTransformer.on_visit / pathlib.Path.read_bytes applied in the forked child (no repository hooks); the fault-free run as reference; faults are exceptions and bad bytes, not process kills.",
+    "fault injection at library seams + differential vs. fault-free run (Hypothesis-drawn plans; exhaustive j enumeration in thorough)",
+    "DESIGN.md §3 C10",
+)
